@@ -451,6 +451,12 @@ def bpe_train(char_list, vocab_size=10000, min_count=1, max_char_code=0):
         else:
             break
 
+    if len(tokens) == new_code - max_char_code:
+        # The loop stopped because vocab_size was reached: the last learned pair
+        # is in code_list but has not been contracted in the encodings yet.
+        for i, char_array in enumerate(compressed_chars):
+            compressed_chars[i] = contract_pair(char_array, pair_to_replace, new_code)
+
     return tokens, code_list, compressed_chars, max_char_code
 
 
